@@ -94,6 +94,7 @@ class ArchiveScanner:
 
     def scan(self, verbose):
         found = False
+        seen = set()
         try:
             self.__db.execute("BEGIN")
             for l1 in self.__archiver.listDir("."):
@@ -105,7 +106,10 @@ class ArchiveScanner:
                         m = self.__archiveSchema.fullmatch(l3)
                         if not m: continue
                         found = True
-                        self.__scan(os.path.join(l2, l3), verbose)
+                        self.__scan(os.path.join(l2, l3), verbose, seen)
+            # forget artifacts that vanished since the last scan
+            for bid in self.getBuildIds():
+                if bid not in seen: self.remove(bid)
         except OSError as e:
             raise BobError("Error scanning archive: " + str(e))
         finally:
@@ -115,11 +119,12 @@ class ArchiveScanner:
                       file=sys.stderr)
         return found
 
-    def __scan(self, fileName, verbose):
+    def __scan(self, fileName, verbose, seen):
         try:
             st = self.__archiver.stat(fileName)
             bidHex, sep, suffix = fileName.partition("-")
             bid = bytes.fromhex(bidHex[0:2] + bidHex[3:5] + bidHex[6:])
+            seen.add(bid)
 
             # Validate entry in caching db. Delete entry if stat has changed.
             # The database will clean the 'refs' table automatically.
